@@ -81,6 +81,8 @@ def execute(engine, plan) -> Outcome:
     out = Outcome()
     try:
         try:
+            from . import lifetimes
+            lifetimes.begin_run(plan)
             engine.run(plan, scratch, out)
         except Exception:
             out.harness_error = traceback.format_exc()
